@@ -179,7 +179,7 @@ def gen_samples(rng, nprng, tier, positive):
 
 def gen_weights(rng, nprng, m):
     kind = rng.choice(["none", "uniform", "uniform", "integer", "integer", "integer0", "importance",
-                       "zeros"])
+                       "zeros", "leading_zeros"])
     if kind == "none":
         return None, kind
     if kind == "uniform":
@@ -192,6 +192,9 @@ def gen_weights(rng, nprng, m):
             w[0] = 1.0
     elif kind == "importance":
         w = np.exp(-0.5 * nprng.chisquare(2, m) * rng.uniform(0.5, 4.0)) + 1e-12
+    elif kind == "leading_zeros":
+        w = nprng.uniform(0.05, 2.0, m)
+        w[: min(m - 1, rng.randint(2, 4))] = 0.0
     else:
         w = nprng.uniform(0.05, 2.0, m)
         w[nprng.random(m) < 0.3] = 0.0
@@ -308,6 +311,14 @@ def fixed_cases(rng):
     for cls, rule in [("DdtHist", "binned"), ("DdtHistKDE", "binned"), ("DdtHist", "scott")]:
         for w in ([1.0, 2.0, 1.0, 0.0, 2.0, 0.0, 1.0, 2.0], [1.0, 2.0, 1.0, 1.0, 0.0, 2.0, 1.0, 0.0]):
             c = finish_case(rng, cls, list(base), list(w), "fixed", "integer0")
+            c["rule"] = rule
+            c["nbins"] = 5
+            c["normalized"] = True
+            out.append(c)
+    # several zero weights in front (importance weights of a chain whose first samples were cut away)
+    for cls, rule in [("DdtHist", "scott"), ("DdtHist", "silverman"), ("DdtHist", "scalar"), ("DdtHist", "binned"), ("DdtHistKDE", "binned")]:
+        for w in ([0.0, 0.0, 1.0, 2.0, 1.0, 1.0, 2.0, 1.0], [0.0, 0.0, 0.0, 2.0, 1.5, 1.0, 0.5, 1.0]):
+            c = finish_case(rng, cls, list(base), list(w), "fixed", "leading_zeros")
             c["rule"] = rule
             c["nbins"] = 5
             c["normalized"] = True
